@@ -146,6 +146,13 @@ def check_prehash(ctx, ci):
         return
     first_store = min(n.lineno for n in storing)
     pre = [n for n in loops if n.lineno < first_store and n not in storing]
+    # validation extracted into a private module-level helper called before the storing loop
+    first_loop = min(storing, key=lambda n: n.lineno)
+    in_iter = {id(x) for x in ast.walk(first_loop.iter)}
+    for c in ast.walk(up.node):
+        if isinstance(c, ast.Call) and isinstance(c.func, ast.Name) and c.func.id.startswith('_') and c.func.id in up.module.functions \
+                and (c.lineno < first_store or id(c) in in_iter):
+            pre += [n for n in ast.walk(up.module.functions[c.func.id].node) if isinstance(n, ast.For)]
     if not pre:
         ctx.ob('T2.prehash', up.fq, 'items are validated (hashed) before the first pair is stored', False, loc=up.loc,
                detail='no validating loop before the storing loop')
